@@ -105,7 +105,10 @@ class SLock:
         self.release()
 
 
-def run_schedule(tid, nthreads, k, picker, rng, broken_lock=False, client_name="tcp", units_differ=False):
+def run_schedule(tid, nthreads, k, picker, rng, broken_lock=False, client_name="tcp", units_differ=False, drop_first_of=0,
+                 connfail_first=False):
+    """drop_first_of = t: the peer does not answer thread t's first transmission (the client retries after a back-off sleep);
+    connfail_first: the very first connection attempt fails (that caller gets a ConnectionException, the others must go on)"""
     clock = C.VClock()
     line = C.Line(clock, "tcp")
     sched = Sched(picker)
@@ -114,10 +117,16 @@ def run_schedule(tid, nthreads, k, picker, rng, broken_lock=False, client_name="
     frames = []
     delayed = []
 
+    dropped = {"n": 0}
+
     def on_write(data):
         frames.append(bytes(data))
         tid_, = struct.unpack(">H", data[:2])
         addr, qty = struct.unpack(">HH", data[8:12])
+        if drop_first_of and addr == 100 * drop_first_of and dropped["n"] == 0:
+            dropped["n"] = 1
+            frames.pop()              # (the retransmission is the same frame: keep NoDup about distinct requests)
+            return {"rx": b""}
         rsp = bytes([3, 2 * qty]) + struct.pack(">H", addr) * qty
         fr = C.pyframe("tcp", tid_, 0, data[6], rsp)
         lat = (addr % 3)
@@ -132,13 +141,24 @@ def run_schedule(tid, nthreads, k, picker, rng, broken_lock=False, client_name="
     line.hook = hook
     clock.hook = hook
     calls = []
+    state = {}
     import pymodbus.transaction as TX
     from pymodbus.register_read_message import ReadHoldingRegistersRequest
     saved = TX.RLock
     TX.RLock = lambda: SLock(sched, broken=broken_lock)
     try:
         with C.Patches(clock, line):
-            kind, client, dec = C.make_client(client_name, {"retries": 0, "roe": 0, "roi": 0}, timeout=1)
+            kind, client, dec = C.make_client(client_name, {"retries": 1 if drop_first_of else 0, "roe": 1 if drop_first_of else 0, "roi": 0},
+                                              timeout=1)
+            if connfail_first:
+                line.connect_ok = False
+                orig_hook = line.hook
+
+                def hook2(what):
+                    if what == "connect" and not line.connect_ok:
+                        line.connect_ok_next = True
+                    orig_hook(what)
+                line.hook = hook2
             # (the scheduler-aware lock stays installed for the whole run: locks created lazily are replaced too)
 
             def worker(t):
@@ -160,6 +180,10 @@ def run_schedule(tid, nthreads, k, picker, rng, broken_lock=False, client_name="
                             raise
                         except Exception as ex:
                             res["kind"] = "raised:" + type(ex).__name__
+                            if connfail_first and type(ex).__name__ == "ConnectionException" and not state.get("cf"):
+                                state["cf"] = 1
+                                res["kind"] = "connfail"        # the scripted connection failure: excepted by the statement
+                                line.connect_ok = True
                         calls.append(res)
                         sched.events.append({"th": t, "op": "done"})
                 except Abort:
@@ -179,7 +203,7 @@ def run_schedule(tid, nthreads, k, picker, rng, broken_lock=False, client_name="
     finally:
         TX.RLock = saved
     return {"id": tid, "nthreads": nthreads, "k": k, "ev": sched.events, "calls": calls,
-            "frames": [list(f) for f in frames]}
+            "frames": [list(f) for f in frames], "connfail": 1 if connfail_first else 0}
 
 
 def pickers(nthreads, rng, tier):
@@ -251,6 +275,15 @@ def run(prop, tier):
         for j, p in enumerate(pickers(nt, rng, tier)):
             traces.append(run_schedule("t%d" % k, nt, kk, p, rng, units_differ=(j % 2 == 1)))   # callers address the same / different units
             k += 1
+    # faulty transports: a dropped first transmission (retry after a back-off sleep with the lock held), a failed first connect
+    for nt, kk in ([(3, 2)] if tier == "quick" else [(2, 2), (3, 2), (4, 2)]):
+        ps = pickers(nt, rng, "quick")
+        for j, p in enumerate(ps[::3] if tier == "quick" else ps):
+            traces.append(run_schedule("d%d" % k, nt, kk, p, rng, units_differ=(j % 2 == 1), drop_first_of=1 + j % nt))
+            k += 1
+            if j % 2 == 0:
+                traces.append(run_schedule("c%d" % k, nt, kk, p, rng, connfail_first=True))
+                k += 1
     # TLC-generated behaviours: every lock-acquisition order of the model, replayed with and without disturbance
     nord = 0
     for nt, kk in ([(3, 2)] if tier == "quick" else [(2, 2), (3, 2), (2, 3)]):
